@@ -826,6 +826,7 @@ def run_checks(run, quick, rng, info, ahead, sim_kw):
         sim("Modules_sim5", "Session/c11 simulation: random graphs over 5 modules, 4 commands", "sim5", 10000)
     probes(run)
     run.cov["traces_validated_against_impl"] = total_edges
+    total_evals += repeated_requires(run)
     run.cov["evaluations"] = total_evals
     run.cov["distinct_nontrivial"] = total_edges
     run.cov["rule"] = ("one case per importer command executed on a materialised module graph, each compared "
@@ -879,7 +880,66 @@ def run_checks(run, quick, rng, info, ahead, sim_kw):
     ]
 
 
+# ---------------------------------------------------------------------------------------------------------------
+# ONE require statement evaluated several times (a loop body, a function body) with a module spec that is a
+# variable holding a string: every evaluation binds the module the variable names at that moment, each module's
+# top-level code runs once (Session!LoadOnce / BindsExactly per evaluation of the statement, not per statement)
+REPEATED_MODULES = {
+    "za": "def who() 'za'; def only_a = 1; def shared = 'a'; def _hidden = 0; append(checkerlang_load_log_, 'za');",
+    "zb": "def who() 'zb'; def only_b = 2; def shared = 'b'; def _hidden = 0; append(checkerlang_load_log_, 'zb');",
+    "zc": "def who() 'zc'; def only_c = 3; def shared = 'c'; def _hidden = 0; append(checkerlang_load_log_, 'zc');",
+}
+REPEATED_PROGRAMS = [
+    ("def seen = []; for nm in ['za', 'zb', 'zc', 'za'] do require nm unqualified; append(seen, [who(), shared]) end; "
+     "[seen, sorted([n for n in ls() if starts_with(n, 'only_')]), checkerlang_load_log_]",
+     "[[['za', 'a'], ['zb', 'b'], ['zc', 'c'], ['za', 'a']], ['only_a', 'only_b', 'only_c'], ['za', 'zb', 'zc']]"),
+    ("def pick(nm) do require nm import [who as w, shared]; return [w(), shared] end; [pick('zc'), pick('za'), pick('zb'), pick('zc'), "
+     "checkerlang_load_log_]", "[['zc', 'c'], ['za', 'a'], ['zb', 'b'], ['zc', 'c'], ['zc', 'za', 'zb']]"),
+    ("def load(nm) do def before = set(ls()); require nm; def added = sorted(list(set(ls()) - before - <<'before'>>)); "
+     "return [added, eval(added[0])->who()] end; [load('za'), load('zb'), load('za'), checkerlang_load_log_]",
+     "[[['za'], 'za'], [['zb'], 'zb'], [['za'], 'za'], ['za', 'zb']]"),
+    ("def r = []; def nm = 'za'; while length(r) < 3 do require nm as m_; append(r, m_->who()); nm = if nm == 'za' then 'zb' else 'zc' end; "
+     "[r, checkerlang_load_log_]", "[['za', 'zb', 'zc'], ['za', 'zb', 'zc']]"),
+]
+
+
+def repeated_requires(run):
+    import os
+    import shutil
+    import tempfile
+    from ckl.interpreter import Interpreter
+    from ckl.values import ValueList, ValueString
+    from . import absval
+    d = tempfile.mkdtemp(prefix="c11rep-")
+    n = 0
+    try:
+        for name, text in REPEATED_MODULES.items():
+            with open(os.path.join(d, name + ".ckl"), "w") as f:
+                f.write(text)
+        for src, want in REPEATED_PROGRAMS:
+            for legacy in (False, True):
+                it = Interpreter(False, legacy)
+                path = ValueList()
+                path.addItem(ValueString(d))
+                it.base_environment.put("checkerlang_module_path", path)
+                it.base_environment.put("checkerlang_load_log_", ValueList())
+                o = absval.outcome(lambda: it.interpret(src, "c11"), limit=30)
+                w = absval.outcome(lambda: Interpreter(True, False).interpret(want, "c11"))
+                n += 1
+                if o[0] != "val" or w[0] != "val" or not absval.strict_eq(absval.to_py(o[1]), absval.to_py(w[1])):
+                    got = str(o[1])[:200] if o[0] in ("val", "err") else o[1:]
+                    run.violation(("legacy: " if legacy else "") + "repeated-require:" + src[:70],
+                                  f"value: {src!r} should yield {want}, got {o[0]} {got}",
+                                  {"kind": "repeated", "legacy": legacy})
+    finally:
+        shutil.rmtree(d, ignore_errors=True)
+    return n
+
+
 def replay(run, case):
+    if case.get("kind") == "repeated":
+        repeated_requires(run)
+        return
     if case.get("kind") == "runner":
         return replay_runner(run, case)
     S.replay_history(run, case, C11_VERDICT, "c11")
